@@ -262,3 +262,11 @@ func TestC17Mid(t *testing.T) {
 	defer st.Flush()
 	rapid.Check(t, c17Prop(st, FamMid))
 }
+
+// the number of surviving postings of one term on a multiple of 1024, the small input merged alone first
+// (1-hit encoded there) versus all at once
+func TestC17Boundary(t *testing.T) {
+	st := NewStats("C17Boundary", c17Rule)
+	defer st.Flush()
+	rapid.Check(t, c02BoundaryProp(st, true))
+}
